@@ -111,7 +111,7 @@ def sym_task(task):
             # The model is only used if it satisfies every assertion of the path solver; the counterexample is replayed
             # natively like any other.
             quick_ce = {}
-            pm = c.path_model() if conds else None
+            pm = c._model if conds else None      # only a model the explorer already holds: no extra solver call, no side effect on the path solver
             if pm is not None:
                 try:
                     if z3.is_true(pm.eval(z3.And(*c.solver.assertions()), model_completion=True)):
